@@ -65,6 +65,9 @@ type endpointPickStrategy struct {
 	flowControlName string
 	upstreams       []string
 	enableLog       bool
+	// lbKey keeps the round-robin cursor of this picker apart from the cursors
+	// of other pickers over the same endpoints
+	lbKey string
 }
 
 func (s *endpointPickStrategy) Pop() (*EndpointInfo, error) {
@@ -92,7 +95,7 @@ func (s *endpointPickStrategy) Pop() (*EndpointInfo, error) {
 	}
 
 	// TODO: apply strategy
-	key := fmt.Sprintf("%v", readyEndpoints)
+	key := s.lbKey + fmt.Sprintf("%v", readyEndpoints)
 	var i uint64
 	lb, _ := s.cluster.loadbalancer.LoadOrStore(key, &i)
 	index := atomic.AddUint64(lb.(*uint64), 1)
@@ -460,10 +463,11 @@ func (c *ClusterInfo) Stop() {
 func (c *ClusterInfo) MatchAttributes(requestAttributes authorizer.Attributes) (EndpointPicker, error) {
 	policies := c.loadDispatchPolicies()
 	logging := c.loadLoggingConfig()
-	policy := MatchPolicies(requestAttributes, policies)
-	if policy == nil {
+	index := matchPolicyIndex(requestAttributes, policies)
+	if index < 0 {
 		return nil, ErrNoRouterRuleMatches
 	}
+	policy := &policies[index]
 
 	flowControlName := policy.FlowControlSchemaName
 	if len(flowControlName) == 0 {
@@ -475,6 +479,7 @@ func (c *ClusterInfo) MatchAttributes(requestAttributes authorizer.Attributes) (
 		flowControl:     c.GetFlowSchema(policy.FlowControlSchemaName),
 		flowControlName: flowControlName,
 		enableLog:       isLogEnabled(logging.Mode, policy.LogMode),
+		lbKey:           fmt.Sprintf("policy-%d:", index),
 	}
 
 	if len(policy.UpstreamSubset) != 0 {
